@@ -4749,10 +4749,16 @@ func (c *Compiler[_, _]) emitConvert(valueType, targetType sema.Type) {
 func (c *Compiler[_, _]) getOrAddType(ty sema.Type) uint16 {
 	// When compiling an inherited code, if we come across a concrete contract type,
 	// then use a reference-type to it.
-	// An inherited code can never refer to the currently compiling contract (i.e: circular imports),
-	// so it's always safe to treat an inherited contract-variable type as a reference type.
+	// Code inherited from another program can never refer to the currently compiling contract
+	// (i.e: circular imports), so it is safe to treat its contract-variable types as reference types.
+	// However, the inherited code may also come from an interface that is declared in the currently
+	// compiling program itself (e.g. a condition of `C.I` which refers to `C`, inherited by `C.S`):
+	// there the contract variable holds the contract value itself, not a reference to it.
 	if c.isInheritedCode {
-		ty = sema.ImportedType(c.Config.MemoryGauge, ty)
+		compositeType, ok := ty.(*sema.CompositeType)
+		if !ok || compositeType.Location != c.location {
+			ty = sema.ImportedType(c.Config.MemoryGauge, ty)
+		}
 	}
 
 	// Optimization: Re-use types in the pool.
